@@ -16,7 +16,7 @@ ASSUMPTIONS = ["eq on number objects is not modelled (the model compares numbers
                "strings, lists and nil/t only"]
 
 VALS = ["1", "2", "1.0", "1.5", "-0.0", "0.0", "0", '"a"', '"b"', '""', "a", "b", ":k", "nil", "t", "(1 2)", "(1 . 2)", "(a (b \"a\") . c)",
-        "(1 (2 (3)))", "(1.0 2)", "(nil)", "()", '("a")', "((a . 1) (b . 2))", "9223372036854775807", "(1 2 3)", "(1 2 . 3)",
+        "(1 (2 (3)))", "(1.0 2)", "(nil)", "()", '("a")', "((a . 1) (b . 2))", "9223372036854775807", "9223372036854775806", "9007199254740993", "9007199254740992", "-9007199254740993", "(9007199254740993)", "(1 . 9007199254740992)", "9007199254740992.0", "(1 2 3)", "(1 2 . 3)",
         # dotted tails of every kind (compared structurally, like elements)
         '(1 . "a")', '(a b . "b")', "(1 . 2.0)", "(1 . 2)", "(1 . 0.0)", "(1 . -0.0)", '("a" . "a")', "(1 . 1.5)", "((1 . 1.0) . 1)",
         '((x . "a") (y . 1.0))', "(1 . :k)", "(1 . t)", "((1 . (2 . \"a\")))"]
@@ -28,6 +28,10 @@ def generate(tier, seed):
     lines, nt = [], set()
     pairs = list(itertools.product(VALS, repeat=2))
     if tier == "quick": pairs = rng.sample(pairs, min(len(pairs), 1000))
+    # pairs that are always there: numbers a double cannot tell apart, int / float twins, dotted tails of every kind
+    pairs += [("9007199254740993", "9007199254740992"), ("9223372036854775807", "9223372036854775806"), ("-9007199254740993", "-9007199254740992"), ("9007199254740993", "9007199254740992.0"),
+              ("(9007199254740993)", "(9007199254740992)"), ("(1 . 9007199254740993)", "(1 . 9007199254740992)"), ("9007199254740992", "9007199254740992.0"), ("1", "1.0"), ("(1 . \"a\")", "(1 . \"a\")"),
+              ("(1 . 2.0)", "(1 . 2)"), ("0.0", "-0.0"), ("\"a\"", "\"a\""), ("(a (b \"a\") . c)", "(a (b \"a\") . c)")]
     for a, b in pairs:
         how = rng.choice(["one-text", "two-texts", "constructed", "rebuilt"])
         if how == "one-text":
